@@ -10,6 +10,7 @@ from .. import terms as T
 from ..model import Program
 from ..report import Report
 from . import common as C
+from .effects import callees as _callees
 
 EXPLANATION = (
     "R02.1 composition shape as dataflow facts: Codec.encode returns self.encoder(self.marshal(value)), Codec.decode returns self.unmarshal(self.decoder(value)), "
@@ -187,7 +188,9 @@ def r02_2(prog, rep):
             rep.check(ident(e) and ident(d), "R02.2", f.qualname, f.loc, "[bytes] bytes-like types are carried verbatim (identity coders)", "[bytes] coders on the bytes path are not the identity", detail="bytes-coders")
         else:
             rep.check(e == ("param", "encoder") and d == ("param", "decoder"), "R02.2", f.qualname, f.loc, "[json] encoder <- encoder, decoder <- decoder (caller's coders, not swapped, not replaced)", f"[json] the caller's coders are not passed through: encoder={T.show(e)[:50] if e else None}, decoder={T.show(d)[:50] if d else None}", detail="json-coders")
-            rep.check(bytes_guard == [False], "R02.2", f.qualname, f.loc, "[json] reached only when t is not bytes-like", "[json] path not separated from the bytes path by isbytestype(t)", detail="json-guard")
+            # (a reference that leads back to itself names no type at all: the exit taken on meeting a reference twice)
+            cyclic_ref = any(pol and g[0] == "cmp" and g[1] == "in" and T.contains(g[2], lambda y: T.is_call_to(y, "typelib.py.refs.forwardref") or T.is_call_to(y, f"{C.INSP}.unwrap")) for g, pol in p.guards())
+            rep.check(bytes_guard == [False] or (not bytes_guard and cyclic_ref), "R02.2", f.qualname, f.loc, "[json] reached only when t is not bytes-like", "[json] path not separated from the bytes path by isbytestype(t)", detail="json-guard")
     # the bytes guard looks at the resolved type, not at the annotation as spelled
     guards_subject = [g[2][0] for pth in ps for g, _ in pth.guards() if T.is_call_to(g, f"{C.INSP}.isbytestype") and g[2]]
     raw = [x for x in guards_subject if x == t]
@@ -196,6 +199,34 @@ def r02_2(prog, rep):
     # a reference back as it is, so some path of the decision evaluates it
     via_ref = [x for x in guards_subject if T.contains(x, lambda y: T.is_call_to(y, "typelib.py.refs.evaluate"))]
     rep.check(bool(via_ref), "R02.2", f.qualname, f.loc, "a reference is evaluated before the verbatim-bytes decision", "the verbatim-bytes decision never evaluates a reference: for t = 'bytes', ForwardRef('bytes'), TypeAliasType('Blob', 'bytes') or Final['bytes'] the routines are the bytes routines while the coders are JSON -- encode raises TypeError, decode(b'\"abc\"') silently returns b'abc'", detail="bytes-guard-reference")
+    # ... and what the reference names is an annotation like any other: it is unwrapped before the decision (origin() alone
+    # sees through a NewType and one alias, not through Final[...] or an alias of an alias)
+    bare_eval = []
+    for x in via_ref:
+        for e in T.find(x, lambda y: T.is_call_to(y, "typelib.py.refs.evaluate")):
+            if not T.contains(x, lambda u, e=e: T.is_call_to(u, f"{C.INSP}.unwrap") and u[2] and T.contains(u[2][0], lambda z: z == e)):
+                bare_eval.append(T.show(e)[:60])
+    if via_ref:
+        rep.check(not bare_eval, "R02.2", f.qualname, f.loc, "the annotation a reference names is unwrapped before the verbatim-bytes decision", f"the value of an evaluated reference ({bare_eval[:1]}) goes to the bytes test without being unwrapped: a reference to a qualified or twice-aliased bytes type ('Frozen' with Frozen = Final[bytes]; an alias of an alias of bytes) gets the JSON coders around the bytes routines -- encode() raises 'Type is not JSON serializable: bytes'", detail="bytes-guard-reference-unwrapped")
+    # ... and what a reference names may be a reference again (a string naming a string-valued alias): the evaluation is
+    # repeated until no reference is left -- a loop on the reference test, or the decision function applied to the value
+    is_eval = lambda y: T.is_call_to(y, "typelib.py.refs.evaluate")  # noqa: E731
+    homes = [f] + [prog.functions[c] for c in sorted(_callees(prog, f)) if c in prog.functions and prog.functions[c].module is f.module]
+    home = next((h for h in homes if any(T.contains(tm, is_eval) for pth in P.paths_of(prog, h) for tm in pth.all_terms())), None)
+    if via_ref and home is not None:
+        repeated = False
+        for pth in P.paths_of(prog, home):
+            inside = False
+            for e in pth.events:
+                if e[0] == "while" and e[2] == 1 and T.contains(e[1], lambda y: T.is_call_to(y, "builtins.isinstance")):
+                    inside = True
+                elif e[0] == "whileend":
+                    inside = False
+                elif inside and any(isinstance(y, tuple) and y and isinstance(y[0], str) and T.contains(y, is_eval) for y in e[1:]):
+                    repeated = True
+            if any(T.contains(tm, lambda y: T.is_call_to(y, home.qualname) and any(T.contains(a, is_eval) for a in y[2])) for tm in pth.all_terms()):
+                repeated = True
+        rep.check(repeated, "R02.2", home.qualname, home.loc, "references are evaluated until no reference is left", "the verbatim-bytes decision evaluates a reference once: a string naming a string-valued alias of a bytes type (codec('B4') with B4 = TypeAliasType('B4', 'B3'), B3 an alias of bytes) evaluates to a reference again, which is no bytes type -- the codec puts the JSON coders around the bytes routines and encode() raises 'Type is not JSON serializable: bytes', while codec(B4) and codec('B3') carry the bytes verbatim", detail="bytes-guard-reference-fixpoint")
     ref_tests = []
     for pth in ps:
         if any(T.contains(g, lambda y: T.is_call_to(y, "typelib.py.refs.evaluate")) for g, _ in pth.guards()):
